@@ -155,9 +155,12 @@ CHECKS['C15'] = dict(
          'C15_csrf_signature and C15_csrf_binding (an accepted token was issued for that cookie and that service, given an injective '
          'MAC and the suffix-free list of service names extracted from the source). Tied to /repo by the translator itself, by an '
          'HTTP sweep of every route x method x lesser role with harvested tokens (state fingerprint before/after, which also '
-         'validates the state-changing bit) and by differential CSRF sequences on the real CsrfProtection.',
-    note=TB + 'PARTIAL: authorisation decided INSIDE a method body (EditUser.post: self or admin) is outside the table theorem and is '
-         'decided by the HTTP sweep; flask-login is replaced by a shim (session user id), flask-jwt-extended is the real library; '
+         'validates the state-changing bit) and by differential CSRF sequences on the real CsrfProtection. The rule decided inside '
+         'a method body, EditUser.post, has its own model (Model/UserModel.v): C15_edit_other_needs_admin, '
+         'C15_self_edit_no_escalation, C15_password_needs_confirmation, tied by the row the database holds after each of a '
+         'series of POST /api/users/<pk> requests (administrator / ordinary caller x own / other / unknown account).',
+    note=TB + 'PARTIAL: other authorisation decided inside method bodies (none known besides EditUser.post) would be outside the table '
+         'theorem and decided by the HTTP sweep only; flask-login is replaced by a shim (session user id), flask-jwt-extended is the real library; '
          'HMAC-SHA1 injectivity is assumed; the role required per handler class is a hand table from docs/users.md.',
     technique='Coq proof (finite table by vm_compute regenerated from source; induction over check sequences; list-suffix argument) + '
               'exhaustive HTTP sweep with state fingerprints + differential CSRF sequences',
